@@ -1261,3 +1261,6 @@ impl InstrFormat for TimelineFormat08 {
         Ok(())
     }
 }
+
+#[cfg(truth_verif)]
+pub fn verif_language_hooks(game: Game) -> Box<dyn LanguageHooks> { Box::new(OldeEclHooks { game }) }
